@@ -197,6 +197,11 @@ class C05(Prop):
         if stack == "retrying":
             w["retry_kwargs"] = {"attempts": rng.choice([1, 2, 3])}
         keys = gen.pick_keys(rng, rng.randint(2, 4))
+        if rng.random() < 0.12:
+            # text keys that are canonically equivalent but different strings: two keys, two items
+            ck["allow_unicode_keys"] = True
+            keys = keys[:2] + list(rng.choice([("caf\u00e9", "cafe\u0301"), ("\uac00", "\u1100\u1161"),
+                                               ("\u03a9", "\u2126"), ("\u00c5", "A\u030a", "\u212b")]))
         pfx = codec.dec(ck.get("key_prefix", E(b"")))
         if pfx and rng.random() < 0.5:
             k0 = keys[0]
@@ -328,6 +333,16 @@ class C05(Prop):
                                   "flags": rng.choice([0, 9]), "exp": rng.choice([0, 0, 100])})
                 else:
                     steps.append({"t": "direct", "node": 0, "op": "delete", "key": E(wk)})
+        if rng.random() < 0.04:
+            # one batch of more than a hundred items, then reads of its first, middle and last keys
+            nb = rng.randint(101, 260)
+            bk = [b"big%03d" % j for j in range(nb)]
+            k = {}
+            nr(k)
+            steps.append({"t": "call", "m": "set_many", "a": [E({kk: b"v%d" % j for j, kk in enumerate(bk)})], "k": k})
+            steps.append({"t": "call", "m": "get_many",
+                          "a": [E([bk[0], bk[99], bk[100], bk[-1], bk[rng.randrange(nb)]])], "k": {}})
+            steps.append({"t": "call", "m": "get", "a": [E(bk[rng.randrange(100, nb)])], "k": {}})
         return [{"property": self.id, "world": w, "steps": steps}]
 
     def run(self, scn):
